@@ -44,7 +44,7 @@ def run(ctx):
         if not fn:
             continue
         ld = is_deleted_loads(ctx, fn)
-        gw = R.call_blocks(fn, (R.GET_WRITER,))
+        gw = R.j_acquire_blocks(ctx, fn)
         ab = R.call_blocks(fn, R.APPEND)
         if not ld:
             ctx.ob("R-C12.1", fn, "checks-is_deleted", False, "write through a keyspace handle never looks at is_deleted: writes to a deleted keyspace are accepted")
